@@ -850,6 +850,11 @@ class C08:
         if pairs is None:
             pairs = []
             texts = sorted(alone)
+            # systematic: every class that has an obvious complement twin is observed behind that twin
+            for t in texts:
+                tw = self.twin(t)
+                if tw is not None and (t.startswith('\\') or t.startswith('[[:')):
+                    pairs.append((tw, t))
             order = texts[:]
             rng.shuffle(order)
             for t in order:
@@ -860,7 +865,7 @@ class C08:
                     pairs.append(('[%s]' % t, t))
                     pairs.append(('[^%s]' % t, t))
                 pairs.append((rng.choice(texts), t))
-                if len(pairs) >= self.CONTEXTS[tier]:
+                if len(pairs) >= self.CONTEXTS[tier] + 120:
                     break
         jobs = [{'kind': 'c08_ctx', 'pairs': [list(x) for x in c]} for c in chunks(pairs, 8)]
         res = run_harness(jobs, rdir, 'c08_ctx', timeout=3000)
